@@ -19,6 +19,8 @@ pub enum Op {
     LoadSame,
     LoadOther,
     LoadRes,
+    /// an empty list through the per-resource loader (the documented way to clear one resource)
+    LoadResEmpty,
     Append,
     ClearAll,
     ClearRes,
@@ -71,6 +73,9 @@ fn do_op(f: Fam, op: Op) {
                 Op::LoadRes => {
                     let _ = $m::load_rules_of_resource(&r1, vec![$rule(1)]);
                 }
+                Op::LoadResEmpty => {
+                    let _ = $m::load_rules_of_resource(&r1, vec![]);
+                }
                 Op::Append => {
                     $m::append_rule($rule(1));
                 }
@@ -95,7 +100,7 @@ fn do_op(f: Fam, op: Op) {
             Op::Append => {
                 system::append_rule(sys_rule(1));
             }
-            Op::ClearAll | Op::ClearRes => system::clear_rules(),
+            Op::ClearAll | Op::ClearRes | Op::LoadResEmpty => system::clear_rules(),
             Op::Get => {
                 let _ = system::get_rules();
             }
@@ -343,7 +348,7 @@ fn generator_body(fam: Fam, via_append: bool) -> Body {
 
 pub fn scenarios(thorough: bool) -> Vec<Scenario> {
     let mut v = vec![];
-    let ops = [Op::LoadSame, Op::LoadOther, Op::LoadRes, Op::Append, Op::ClearAll, Op::ClearRes, Op::Get];
+    let ops = [Op::LoadSame, Op::LoadOther, Op::LoadRes, Op::Append, Op::ClearAll, Op::ClearRes, Op::Get, Op::LoadResEmpty];
     let sys_ops = [Op::LoadSame, Op::LoadOther, Op::Append, Op::ClearAll, Op::Get];
     let b = if thorough { 2 } else { 1 };
     for f in [Fam::Flow, Fam::Cb, Fam::Hotspot, Fam::Iso, Fam::Sys] {
